@@ -246,12 +246,34 @@ impl Ord for Number {
                     l.cmp(&(*r as u64))
                 }
             }
-            (_, _) => {
-                let l = OrderedFloat(self.as_f64().unwrap());
-                let r = OrderedFloat(other.as_f64().unwrap());
-                l.cmp(&r)
-            }
+            (Number::Int64(l), Number::Float64(r)) => cmp_int_float(*l as i128, *r),
+            (Number::UInt64(l), Number::Float64(r)) => cmp_int_float(*l as i128, *r),
+            (Number::Float64(l), Number::Int64(r)) => cmp_int_float(*r as i128, *l).reverse(),
+            (Number::Float64(l), Number::UInt64(r)) => cmp_int_float(*r as i128, *l).reverse(),
+            (Number::Float64(l), Number::Float64(r)) => OrderedFloat(*l).cmp(&OrderedFloat(*r)),
         }
+    }
+}
+
+// Compare an integer with a float by their exact values, converting the integer
+// to `f64` would round integers beyond 2^53 and break the total order.
+fn cmp_int_float(i: i128, f: f64) -> Ordering {
+    // NaN is greater than any other number.
+    if f.is_nan() {
+        return Ordering::Less;
+    }
+    // every i64 and u64 value lies strictly between -2^65 and 2^65.
+    const LIMIT: f64 = 36893488147419103232.0;
+    if f >= LIMIT {
+        return Ordering::Less;
+    }
+    if f <= -LIMIT {
+        return Ordering::Greater;
+    }
+    let t = f.trunc();
+    match i.cmp(&(t as i128)) {
+        Ordering::Equal => 0.0.partial_cmp(&(f - t)).unwrap_or(Ordering::Equal),
+        order => order,
     }
 }
 
